@@ -48,12 +48,20 @@ pub assume_specification<T>[ core::convert::identity::<T> ](x: T) -> (r: T)
 ;
 
 // ---------------------------------------------------------------- Vec / VecDeque capacity
+pub uninterp spec fn vec_capacity<T, A: Allocator>(v: &Vec<T, A>) -> usize;
+pub uninterp spec fn vecdeque_capacity<T, A: Allocator>(v: &VecDeque<T, A>) -> usize;
+
+pub axiom fn axiom_vec_capacity<T, A: Allocator>(v: &Vec<T, A>)
+    ensures vec_capacity(v) >= v@.len();
+pub axiom fn axiom_vecdeque_capacity<T, A: Allocator>(v: &VecDeque<T, A>)
+    ensures vecdeque_capacity(v) >= v@.len();
+
 pub assume_specification<T, A: Allocator>[ Vec::<T, A>::capacity ](v: &Vec<T, A>) -> (c: usize)
-    ensures c >= v@.len(),
+    ensures c >= v@.len(), c == vec_capacity(v),
 ;
 
 pub assume_specification<T, A: Allocator>[ VecDeque::<T, A>::capacity ](v: &VecDeque<T, A>) -> (c: usize)
-    ensures c >= v@.len(),
+    ensures c >= v@.len(), c == vecdeque_capacity(v),
 ;
 
 pub assume_specification<T, A: Allocator>[ VecDeque::<T, A>::shrink_to_fit ](v: &mut VecDeque<T, A>)
